@@ -29,7 +29,7 @@ open NiftyVerif
 /-! ## Elementary transforms -/
 section Elementary
 variable {K : Type} [Transc K] [Add K] [Sub K] [Mul K] [Div K] [Neg K]
-  [OfNat K 0] [OfNat K 1] [OfNat K 2] [OfScientific K] [LT K] [DecidableLT K]
+  [OfNat K 0] [OfNat K 1] [OfNat K 2] [OfScientific K] [LT K] [DecidableLT K] [LE K] [DecidableLE K]
 
 /-- `x ** 2` on floats (NumPy and JAX evaluate an integer power 2 as `x * x`) -/
 def sq (v : K) : K := v * v
@@ -40,16 +40,16 @@ def normal (mean std xi : K) : K := mean + std * xi
 /-- `_normal_to_standard(y, mean, std) = (y - mean) / std` -/
 def normalInv (mean std y : K) : K := (y - mean) / std
 
-/-- `nifty.re...lognormal_moments(mean, std)`: `none` is the `ValueError` for `mean <= 0` or `std <= 0`;
+/-- `nifty.re...lognormal_moments(mean, std)`: `none` is the `ValueError` raised `if mean <= 0.0` resp. `if std <= 0.0`;
     `logstd = sqrt(log1p((std/mean)**2))`, `logmean = log(mean) - 0.5*logstd**2`; returns `(logmean, logstd)` -/
 def lognormalMomentsRe (mean std : K) : Option (K × K) :=
-  if ¬ ((0 : K) < mean) then none else
-  if ¬ ((0 : K) < std) then none else
+  if mean ≤ (0 : K) then none else
+  if std ≤ (0 : K) then none else
   let logstd := Transc.sqrt (Np.log1p (sq (std / mean)))
   let logmean := Transc.log mean - (0.5 : K) * sq logstd
   some (logmean, logstd)
 
-/-- `nifty.cl.utilities.lognormal_moments(mean, sigma)`: `logsigma = sqrt(log1p((sigma/mean)**2))`,
+/-- `nifty.cl.utilities.lognormal_moments(mean, sigma)` (`ValueError` raised `if not mean > 0` resp. `if not sigma > 0`): `logsigma = sqrt(log1p((sigma/mean)**2))`,
     `logmean = log(mean) - logsigma**2/2` -/
 def lognormalMomentsCl (mean sigma : K) : Option (K × K) :=
   if ¬ ((0 : K) < mean) then none else
